@@ -59,6 +59,8 @@ _VEC = {}
 
 
 def begin_shard(st):
+    if _VEC:
+        return  # once per worker process
     R.self_test()
     with open(BIP340_CSV, newline="") as f:
         rd = csv.reader(f)
